@@ -128,5 +128,39 @@ def relations(rng, tier, rpt):
         back = Bip32PathParser.Parse(po.ToStr())
         if back.ToList() != po.ToList() or back.IsAbsolute() != po.IsAbsolute():
             rep("parse(print(p)) != p", po.ToStr(), str(back.ToList()), str(po.ToList()))
+    # the same clauses for the Substrate wrapper (junction paths): parent object (key and path) unchanged by derivation, siblings
+    # independent of each other, p then q == p++q == chain of single junctions (keys and reported paths)
+    from bip_utils import Substrate, SubstrateCoins, SubstratePath, SubstratePathElem
+
+    def sview(o):
+        return (o.PublicKey().RawCompressed().ToBytes().hex(), o.Path().ToStr(), o.IsPublicOnly())
+    for i in range(12 if tier == "quick" else 300):
+        seed = bytes(rng.randrange(256) for _ in range(32))
+        parent = Substrate.FromSeed(seed, SubstrateCoins.POLKADOT)
+        if i % 3 == 0:
+            parent = parent.ChildKey("//base")
+        if i % 4 == 3:
+            parent.ConvertToPublic()
+        before = sview(parent)
+        j1, j2, j3 = "/a%d" % rng.randrange(100), "/%d" % rng.randrange(10**6), "/stash"
+        c1 = sview(parent.ChildKey(j1))
+        c2 = sview(parent.ChildKey(j2))
+        c2_fresh_order = sview(parent.ChildKey(j2))
+        c1_again = sview(parent.ChildKey(j1))
+        n += 1
+        if sview(parent) != before:
+            rep("Substrate parent object changed by deriving children", seed.hex(), str(sview(parent)), str(before))
+        if c1 != c1_again or c2 != c2_fresh_order or not c2[1].endswith(j2) or c2[1] != before[1] + j2:
+            rep("a Substrate child depends on the siblings derived before it", "%s %s %s" % (seed.hex(), j1, j2), str((c1_again, c2)), str((c1, (c2[0], before[1] + j2, c2[2]))))
+        a = sview(parent.DerivePath(j1 + j2).DerivePath(j3))
+        b = sview(parent.DerivePath(j1 + j2 + j3))
+        c = sview(parent.ChildKey(j1).ChildKey(j2).ChildKey(j3))
+        if not (a == b == c):
+            rep("Substrate: derive p then q / p++q / junction chain disagree", "%s %s" % (seed.hex(), j1 + j2 + j3), str((a, b, c)), str(a))
+        pth = SubstratePath([SubstratePathElem(j1)])
+        p_before = pth.ToStr()
+        q1, q2 = pth.AddElem(j2).ToStr(), pth.AddElem(j3).ToStr()
+        if pth.ToStr() != p_before or q1 != j1 + j2 or q2 != j1 + j3:
+            rep("SubstratePath.AddElem changes its receiver", j1, str((pth.ToStr(), q1, q2)), str((p_before, j1 + j2, j1 + j3)))
     rpt.extra["impl_relation_checks"] = n
     return bad[:5]
